@@ -24,17 +24,20 @@ func init() {
 			"(a2) numeric grid: every comparison kind (plain and negated) over every ordered pair of 45 delicate numbers - integers around +-2^53, +-2^62, the ends of int64 (where float64 rounding collapses neighbours), floats at the same places, +-0, +-MaxFloat64, denormals - same-kind and cross-kind; " +
 			"(c) top-level and + one operand / all + one element never turns a failing Match into a passing one; (d) Match => PartialMatch; (e) Match(P1||P2) == Match(P1) && Match(P2), same for PartialMatch; " +
 			"(f) a single top-level leaf over missing required data gives (Match false, PartialMatch true), over missing optional data passes both. " +
+			"Purity (also in a -race build): a sample of these calls on shared objects is repeated in reverse / shuffled order and from 16..32 goroutines at once; every outcome must equal the first one and the race detector must stay silent. " +
 			"non-trivial = policy with a connective/quantifier/negation or a non-equality leaf; distinct = (policy, data).",
 		Assumptions: []string{
 			"reference evaluator ref.Eval (120 lines); both the constructor-built and the IPLD-decoded form of each policy are matched",
 			"not judged: empty or, NaN/Inf operands of ordering statements and NaN under ==, quantifiers whose selector yields a map or scalar, integers above 2^63-1; (c) is applied to statements not nested under not, and to Match only",
 		},
-		Shards:      shards(8, 16),
-		Run:         runC11,
-		MinEvals:    floor(150000, 4000000),
-		MinDistinct: floor(20000, 500000),
+		Shards:          shards(8, 16),
+		RaceShards:      shards(1, 2),
+		RaceIsViolation: true,
+		Run:             runC11,
+		MinEvals:        floor(150000, 4000000),
+		MinDistinct:     floor(20000, 500000),
 		RequiredCells: func(string) []string {
-			cells := []string{"grid", "grid/int-vs-int", "grid/float-vs-float", "grid/int-vs-float", "grid/float-vs-int", "grid/both-beyond-2^53", "a/true", "a/false", "a/map-literal-reordered", "a/link-same-hash-other-codec", "a/float-opposite-huge", "b/and", "b/or", "b/all", "b/any", "c/and", "c/all", "d", "e", "f/missing-required", "f/missing-optional", "data/nan-inf", "data/empty-collections", "via/constructors", "via/ipld"}
+			cells := []string{"purity/policy-match/history", "purity/policy-match/concurrent", "grid", "grid/int-vs-int", "grid/float-vs-float", "grid/int-vs-float", "grid/float-vs-int", "grid/both-beyond-2^53", "a/true", "a/false", "a/map-literal-reordered", "a/link-same-hash-other-codec", "a/float-opposite-huge", "b/and", "b/or", "b/all", "b/any", "c/and", "c/all", "d", "e", "f/missing-required", "f/missing-optional", "data/nan-inf", "data/empty-collections", "via/constructors", "via/ipld"}
 			for _, k := range ref.AllKinds {
 				cells = append(cells, "a/kind/"+k)
 			}
@@ -331,6 +334,9 @@ func nontrivialPolicy(p ref.Policy) bool {
 }
 
 func runC11(w *mon.W) {
+	if purityGate(w, c11Purity) {
+		return
+	}
 	c11NumericGrid(w)
 	r := w.Rng
 	// ---------- (a) classical reading inside the resolving fragment
